@@ -11,7 +11,6 @@ NA = {
  'C05': 'as C04',
  'C06': 'MS/Moir/Basket/Optimistic/RW/FC queues need the HP/DHP singleton (C01) or the flat-combining kernel (C23) encoded first; not encoded',
  'C08': 'SegmentedQueue needs the HP singleton encoded; not encoded',
- 'C09': 'TreiberStack/FCStack need the HP singleton or the FC kernel encoded; not encoded',
  'C10': 'FCDeque: flat-combining kernel (thread-local publication records via boost/std TLS, std::deque) beyond the translator; not encoded',
  'C11': 'MSPriorityQueue/FCPriorityQueue concurrent harness not built; only the slot counter is decided (C26)',
  'C13': 'ordered lists over HP/DHP/RCU need the SMR singletons encoded; not encoded',
@@ -33,6 +32,7 @@ TEXT = {
  'C22': ('model_checking', 'all schedules with at most K-1 context switches (before every atomic operation) of 2-3 threads x 1-2 critical sections on the real spin_lock / reentrant_spin_lock (nested lock, try_lock, try_lock(n)), pool_monitor (over a ghost lock pool: attachment, return-to-pool and mutual-exclusion oracles), injecting_monitor and lock_array (pow2 and mod policies, solver-chosen hints), by coroutine sequentialisation of the clang IR + cbmc'),
  'C01': ('model_checking', 'HP scheme: (1) the real basic_smr::classic_scan / inplace_scan run once from an arbitrary valid pre-state chosen by the solver (2-3 thread records, 1-2 hazard slots each holding any object or nothing, owned or detached records, any subset of 2-4 objects retired in any order): no protected object is disposed, every unprotected retired object is disposed exactly once, the retired array stays well-formed; (2) reader Guard::protect()+dereference || writer unlink+retire()+pass under every schedule with at most K-1 context switches'),
  'C03': ('model_checking', 'HP scheme only: same queries as C01 - exactly-once disposal by a pass for every retired object no guard protects, nothing disposed twice or unretired, and after the guards are dropped the next pass disposes the rest (DHP not encoded)'),
+ 'C09': ('model_checking', 'all schedules with at most K-1 context switches of 2 threads x 1 solver-chosen push/pop (3 threads and 2 operations per thread in the thorough tier) on the real container:: and intrusive::TreiberStack over the real hazard-pointer Guard/retire (pre-filled by solver choice; popped nodes are really freed by a pass right after the pop, so use-after-free shows as a deallocated-object dereference); history linearizable to a LIFO, items conserved; elimination back-off and FCStack are outside the claim'),
  'C24': ('model_checking', 'all schedules with at most K-1 context switches of 2-3 threads x 1-2 solver-chosen allocate/deallocate steps on the real vyukov_queue_pool, lazy_vyukov_queue_pool, bounded_vyukov_queue_pool and pool_allocator (capacity 2, driven past capacity where the pool allows it) from a solver-chosen pre-state of held objects; ghost set of allocated objects (no double hand-out), quiescent re-allocation of every pooled object'),
  'C21': ('model_checking', 'all schedules with at most K-1 context switches of 2 threads x 1-2 get/put steps (3 threads x 1 in the thorough tier) on the real FreeList, TaggedFreeList and CachedFreeList with 2 nodes; initial ownership chosen by the solver; ghost-ownership oracle (no double hand-out), final drain (no node lost)'),
  'C12': ('model_checking', 'sequential: every script of 5-6 solver-chosen API calls with solver-chosen batch/record sizes on the real WeakRingBuffer<T> (capacity 4, static and dynamic buffer) and WeakRingBuffer<void> (32 bytes) against a FIFO/record model incl. the exact refusal conditions and record bytes; concurrent: producer || consumer, every schedule with at most K-1 context switches, history linearizable to the bounded FIFO (batch) / record FIFO'),
